@@ -183,6 +183,7 @@ func config(sc vlib.Scenario, tier string) vsched.Config {
 }
 
 type world struct {
+	afterOpen string
 	kit.World
 	p       params
 	seqViol []string
@@ -401,6 +402,8 @@ func (w *world) connMain() {
 	// a chunk for the downstream and one for an alias nobody has
 	if c := w.B.Live(); c != nil && len(w.B.Downs) == 1 {
 		w.B.Send(c, dchunk(w.B.Downs[0].Alias+33, 1, "stray"))
+		// metadata addressed to the downstream's alias but from a source node it did not subscribe
+		w.B.Send(c, &message.DownstreamMetadata{RequestID: 7001, StreamIDAlias: w.B.Downs[0].Alias, SourceNodeID: "nobody", Metadata: &message.BaseTime{Name: "stray"}})
 		w.B.Send(c, dchunk(w.B.Downs[0].Alias, 2, "D1"))
 	}
 	upR.Write(wctx, kit.IDA, "R2")
@@ -438,6 +441,13 @@ func (w *world) connMain() {
 			}
 		}
 		w.afterWrites[u.Name] = fmt.Sprintf("%s/%v", kit.ErrKind(err), got)
+	}
+	// ... and a further stream can be opened beside them
+	if w.B.Live() != nil {
+		octx, ocancel := kit.Ctx(10 * time.Second)
+		_, err := w.OpenDown(octx, "down2", kit.Filter("src9"))
+		ocancel()
+		w.afterOpen = kit.ErrKind(err)
 	}
 	if w.p.Close != "down" && !kit.ReportedClosed(dn.Closed) {
 		for {
@@ -537,6 +547,9 @@ func (w *world) connOracle(res *vsched.Result, v *vlib.Verdict) {
 		}
 	}
 	// closing one stream leaves the others working
+	if res.Outcome == vsched.Completed && w.afterOpen != "" && w.afterOpen != "nil" && w.B.Live() != nil {
+		v.Fail("C07.close-isolation", fmt.Sprintf("open-downstream-after/%s/cuts=%d/dev=%v", w.afterOpen, w.cuts, dev), "after the traffic phase (stray chunk and metadata for the first downstream, close of %s) a further downstream could not be opened: %s", w.p.Close, w.afterOpen)
+	}
 	if res.Outcome == vsched.Completed {
 		for name, r := range w.afterWrites {
 			if r != "nil/true" {
